@@ -2,9 +2,10 @@
 // polygon queries and distance sort on real indexes (scorch, scorch with the s2 spatial plugin,
 // upsidedown).  The oracle is the Coq model (coq/Geo); this program only generates inputs, runs
 // the implementation and prints what it returned.  The one exception, stated in checks/C18.json:
-// for circles and polygons (trigonometry, which Coq cannot evaluate) each (point, query) pair is
-// classified here as clearly-inside / clearly-outside / near-boundary with strict float64 math and
-// generous margins, and that classification is part of the case's INPUT.
+// for circles (trigonometry, which Coq cannot evaluate) each (point, query) pair is classified
+// here as clearly-inside / clearly-outside / near-boundary with strict float64 math and generous
+// margins, and that classification is part of the case's INPUT.  Polygon verdicts are computed in
+// Coq (Geo/Polygon.v) from the exact values of the float64 inputs.
 package main
 
 import (
@@ -306,7 +307,11 @@ func makeDocs(r *vrand.R, probe func() Pt) [][]Pt {
 	return docs
 }
 
-func engineFor(k int) string { return []string{"scorch", "upsidedown", "s2", "scorch"}[k%4] }
+// Every API-level scene is run on a plain index (scorch two times out of three, else upsidedown)
+// AND on a scorch index with the s2 spatial plugin: the same query, the same documents.
+func enginesFor(k int) []string {
+	return []string{[]string{"scorch", "upsidedown", "scorch"}[k%3], "s2"}
+}
 
 func gen(f vh.Flags, r *vrand.R, emit func(In)) {
 	for k := 0; k < f.N(200, 20000); k++ {
@@ -365,10 +370,16 @@ func gen(f vh.Flags, r *vrand.R, emit func(In)) {
 	// API-level scenes are generated per kind and emitted round-robin, so that the Coq evaluation
 	// cost (box scenes are the expensive ones) is spread evenly over the case shards
 	var scenes [4][]In
-	nb, nd, np, ns := f.N(100, 5000), f.N(100, 5000), f.N(70, 3500), f.N(30, 1500)
+	nb, nd, np, ns := f.N(70, 5000), f.N(70, 5000), f.N(80, 5000), f.N(20, 1500)
+	sceneNo := 0
 	emitAPI := func(in In) {
 		i := map[string]int{"box": 0, "dist": 1, "poly": 2, "sort": 3}[in.Kind]
-		scenes[i] = append(scenes[i], in)
+		for _, e := range enginesFor(sceneNo) {
+			c := in
+			c.Engine = e
+			scenes[i] = append(scenes[i], c)
+		}
+		sceneNo++
 	}
 	defer func() {
 		for i := 0; ; i++ {
@@ -395,7 +406,7 @@ func gen(f vh.Flags, r *vrand.R, emit func(In)) {
 			}
 			return probeRect(r, tlLon, brLat, brLon, tlLat)
 		}
-		emitAPI(In{Kind: "box", Engine: engineFor(k), Box: []uint64{fb(tlLon), fb(tlLat), fb(brLon), fb(brLat)},
+		emitAPI(In{Kind: "box", Box: []uint64{fb(tlLon), fb(tlLat), fb(brLon), fb(brLat)},
 			Docs: makeDocs(r, probe), Note: note})
 	}
 	for k := 0; k < nd; k++ {
@@ -436,29 +447,12 @@ func gen(f vh.Flags, r *vrand.R, emit func(In)) {
 				return destination(c, 2*math.Pi*r.Float(), ang*(1+eps))
 			}
 		}
-		emitAPI(In{Kind: "dist", Engine: engineFor(k), P: &c, Radius: fb(rad), Docs: makeDocs(r, probe), Note: note})
+		emitAPI(In{Kind: "dist", P: &c, Radius: fb(rad), Docs: makeDocs(r, probe), Note: note})
 	}
 	for k := 0; k < np; k++ {
-		poly, cx, cy, rx, ry := genPolygon(r)
-		probe := func() Pt {
-			switch r.Intn(6) {
-			case 0:
-				return mkPt(edgeLon(r), edgeLat(r))
-			case 1: // near a vertex
-				v := vrand.Pick(r, poly)
-				d := vrand.Pick(r, []float64{0, 5e-7, 2e-6, 1e-5, 1e-3})
-				return mkPt(v.lon()+d*(2*r.Float()-1), v.lat()+d*(2*r.Float()-1))
-			case 2: // near an edge
-				i := r.Intn(len(poly))
-				a, b := poly[i], poly[(i+1)%len(poly)]
-				t := r.Float()
-				d := vrand.Pick(r, []float64{0, 1e-6, 5e-6, 1e-4, 1e-2})
-				return mkPt(a.lon()+t*(b.lon()-a.lon())+d*(2*r.Float()-1), a.lat()+t*(b.lat()-a.lat())+d*(2*r.Float()-1))
-			default:
-				return mkPt(cx+rx*1.3*(2*r.Float()-1), cy+ry*1.3*(2*r.Float()-1))
-			}
-		}
-		emitAPI(In{Kind: "poly", Engine: engineFor(k), Poly: poly, Docs: makeDocs(r, probe)})
+		poly, note := genPolygon(r)
+		probe := polyProbe(r, poly)
+		emitAPI(In{Kind: "poly", Poly: poly, Docs: makeDocs(r, probe), Note: note})
 	}
 	for k := 0; k < ns; k++ {
 		c := mkPt(edgeLon(r), edgeLat(r))
@@ -477,42 +471,228 @@ func gen(f vh.Flags, r *vrand.R, emit func(In)) {
 			}
 			docs[i] = []Pt{p}
 		}
-		emitAPI(In{Kind: "sort", Engine: engineFor(k), P: &c, Docs: docs, Desc: r.Chance(1, 3)})
+		emitAPI(In{Kind: "sort", P: &c, Docs: docs, Desc: r.Chance(1, 3)})
 	}
 }
 
-// a simple polygon inside the coordinate bounds: star-shaped around (cx,cy), convex or concave,
-// either orientation; or an axis-parallel rectangle / a triangle
-func genPolygon(r *vrand.R) (poly []Pt, cx, cy, rx, ry float64) {
-	rx = logUniform(r, 1e-4, 25)
-	ry = rx * (0.3 + 1.4*r.Float())
-	if ry > 40 {
-		ry = 40
+// ---------------------------------------------------------------- polygons
+// A simple (non self-intersecting) polygon of 3-12 vertices inside the coordinate bounds, in the
+// planar lon/lat sense bleve gives to polygon queries.  Dimensions: size (metres to continental:
+// bounding box 1e-5 .. 170 degrees wide), latitude of the centre (half of the polygons at
+// |lat| 40-80, where a great circle through two vertices leaves the straight lon/lat edge the
+// most), shape family (star-shaped convex / concave, axis-parallel rectangle, band with long
+// east-west edges broken into several vertices, skewed quadrilateral, triangle on an east-west
+// base, rectilinear L / U / comb), orientation, position (anywhere, or touching +-180 / +-90).
+func genPolygon(r *vrand.R) (poly []Pt, note string) {
+	var w float64
+	switch r.Intn(8) {
+	case 0:
+		w, note = logUniform(r, 1e-5, 1e-3), "metres"
+	case 1:
+		w, note = logUniform(r, 1e-3, 0.05), "km"
+	case 2:
+		w, note = logUniform(r, 0.05, 2), "city"
+	case 3, 4:
+		w, note = logUniform(r, 2, 20), "country"
+	default:
+		// at most 170 degrees wide: every edge then spans less than 180 degrees of longitude, the
+		// domain on which "the segment from a to b" means the same in the lon/lat plane and on the
+		// sphere (beyond it the s2 covering takes the edge the short way round the globe)
+		w, note = 20+150*r.Float(), "continental"
 	}
-	cx = -180 + rx + (360-2*rx)*r.Float()
-	cy = -90 + ry + (180-2*ry)*r.Float()
-	n := r.Range(3, 9)
-	concave := r.Chance(1, 2)
-	angs := make([]float64, n)
-	for i := range angs {
-		angs[i] = (float64(i) + 0.15 + 0.7*r.Float()) * 2 * math.Pi / float64(n)
+	h := w * (0.08 + 0.9*r.Float())
+	if h > 50 {
+		h = 20 + 30*r.Float()
 	}
-	for _, a := range angs {
-		rad := 1.0
-		if concave {
-			rad = 0.35 + 0.65*r.Float()
+	// centre
+	var cy float64
+	if r.Bool() {
+		cy = (40 + 40*r.Float()) * float64(1-2*r.Intn(2))
+		note += "+midhigh"
+	} else {
+		cy = -85 + 170*r.Float()
+	}
+	if cy+h/2 > 90 {
+		cy = 90 - h/2
+	}
+	if cy-h/2 < -90 {
+		cy = -90 + h/2
+	}
+	if !(cy+h/2 >= 89.999 || cy-h/2 <= -89.999) && r.Chance(1, 2) {
+		// keep away from the poles unless asked for below
+		cy = math.Max(-88+h/2, math.Min(88-h/2, cy))
+	}
+	cx := -180 + w/2 + (360-w)*r.Float()
+	if r.Chance(1, 10) { // touching a coordinate bound
+		switch r.Intn(4) {
+		case 0:
+			cx, note = -180+w/2, note+"+at-180"
+		case 1:
+			cx, note = 180-w/2, note+"+at180"
+		case 2:
+			cy, note = 90-h/2, note+"+at90"
+		default:
+			cy, note = -90+h/2, note+"+at-90"
 		}
-		poly = append(poly, mkPt(cx+rx*rad*math.Cos(a), cy+ry*rad*math.Sin(a)))
 	}
-	if r.Chance(1, 8) {
-		poly = []Pt{mkPt(cx-rx, cy-ry), mkPt(cx+rx, cy-ry), mkPt(cx+rx, cy+ry), mkPt(cx-rx, cy+ry)}
+	x0, x1, y0, y1 := cx-w/2, cx+w/2, cy-h/2, cy+h/2
+	at := func(fx, fy float64) Pt { return mkPt(x0+fx*(x1-x0), y0+fy*(y1-y0)) }
+	switch r.Intn(8) {
+	case 0, 1: // star-shaped around the centre
+		n := r.Range(3, 12)
+		concave := r.Bool()
+		note += "+star"
+		if concave {
+			note += "-concave"
+		}
+		for i := 0; i < n; i++ {
+			a := (float64(i) + 0.15 + 0.7*r.Float()) * 2 * math.Pi / float64(n)
+			rad := 1.0
+			if concave {
+				rad = 0.35 + 0.65*r.Float()
+			}
+			poly = append(poly, at(0.5+0.5*rad*math.Cos(a), 0.5+0.5*rad*math.Sin(a)))
+		}
+	case 2: // axis-parallel rectangle: two long east-west edges
+		note += "+rect"
+		poly = []Pt{at(0, 0), at(1, 0), at(1, 1), at(0, 1)}
+	case 3: // band: the long east-west edges broken into several vertices with a little jitter
+		note += "+band"
+		nb := r.Range(1, 5) // vertices on the bottom edge, corners included = nb+1
+		nt := r.Range(1, 5)
+		for i := 0; i <= nb; i++ {
+			j := 0.0
+			if i > 0 && i < nb {
+				j = 0.2 * r.Float()
+			}
+			poly = append(poly, at(float64(i)/float64(nb), j))
+		}
+		for i := nt; i >= 0; i-- {
+			j := 0.0
+			if i > 0 && i < nt {
+				j = 0.2 * r.Float()
+			}
+			poly = append(poly, at(float64(i)/float64(nt), 1-j))
+		}
+	case 4: // skewed quadrilateral
+		note += "+quad"
+		s1, s2 := 0.4*r.Float(), 0.4*r.Float()
+		poly = []Pt{at(s1, 0), at(1, 0.3*r.Float()), at(1-s2, 1), at(0, 1-0.3*r.Float())}
+	case 5: // triangle on an east-west base
+		note += "+tri"
+		if r.Bool() {
+			poly = []Pt{at(0, 0), at(1, 0), at(r.Float(), 1)}
+		} else {
+			poly = []Pt{at(0, 1), at(r.Float(), 0), at(1, 1)}
+		}
+	case 6: // L or U, rectilinear (concave)
+		if r.Bool() {
+			note += "+L"
+			a, b := 0.2+0.6*r.Float(), 0.2+0.6*r.Float()
+			poly = []Pt{at(0, 0), at(1, 0), at(1, b), at(a, b), at(a, 1), at(0, 1)}
+		} else {
+			note += "+U"
+			a, b, c := 0.15+0.2*r.Float(), 0.65+0.2*r.Float(), 0.2+0.6*r.Float()
+			poly = []Pt{at(0, 0), at(1, 0), at(1, 1), at(b, 1), at(b, c), at(a, c), at(a, 1), at(0, 1)}
+		}
+	default: // comb: teeth pointing north (concave, 8 or 12 vertices)
+		note += "+comb"
+		teeth := r.Range(2, 3)
+		poly = []Pt{at(0, 0), at(1, 0)}
+		nseg := 2*teeth - 1
+		d := 0.2 + 0.6*r.Float()
+		for i := nseg; i >= 1; i-- {
+			xr, xl := float64(i)/float64(nseg), float64(i-1)/float64(nseg)
+			if i%2 == 1 { // a tooth
+				poly = append(poly, at(xr, 1), at(xl, 1))
+			} else { // a gap
+				poly = append(poly, at(xr, d), at(xl, d))
+			}
+		}
+		// consecutive duplicates (tooth/gap share an x) are distinct points: (x,1) then (x,d)
 	}
-	if r.Bool() { // clockwise
+	if r.Bool() { // the other orientation
 		for i, j := 0, len(poly)-1; i < j; i, j = i+1, j-1 {
 			poly[i], poly[j] = poly[j], poly[i]
 		}
 	}
+	if k := r.Intn(len(poly)); k > 0 { // start anywhere on the ring
+		poly = append(append([]Pt{}, poly[k:]...), poly[:k]...)
+	}
 	return
+}
+
+// planar crossing parity in float64: used ONLY to place probe points (inside / outside on
+// purpose); what the verdict for a point is, is computed in Coq from the exact inputs.
+func roughInside(poly []Pt, px, py float64) bool {
+	in := false
+	for i := range poly {
+		a, b := poly[i], poly[(i+1)%len(poly)]
+		if (a.lat() > py) != (b.lat() > py) && px < (b.lon()-a.lon())*(py-a.lat())/(b.lat()-a.lat())+a.lon() {
+			in = !in
+		}
+	}
+	return in
+}
+
+func polyProbe(r *vrand.R, poly []Pt) func() Pt {
+	x0, x1, y0, y1 := math.Inf(1), math.Inf(-1), math.Inf(1), math.Inf(-1)
+	for _, v := range poly {
+		x0, x1 = math.Min(x0, v.lon()), math.Max(x1, v.lon())
+		y0, y1 = math.Min(y0, v.lat()), math.Max(y1, v.lat())
+	}
+	w, h := x1-x0, y1-y0
+	inBox := func(grow float64) (float64, float64) {
+		return x0 + w*(0.5+(0.5+grow)*(2*r.Float()-1)), y0 + h*(0.5+(0.5+grow)*(2*r.Float()-1))
+	}
+	return func() Pt {
+		switch r.Intn(10) {
+		case 0:
+			return mkPt(edgeLon(r), edgeLat(r))
+		case 1: // near a vertex (inside / outside the 1e-6 vertex box, beyond the margin)
+			v := vrand.Pick(r, poly)
+			d := vrand.Pick(r, []float64{0, 5e-7, 2e-6, 1e-5, 1e-3})
+			return mkPt(v.lon()+d*(2*r.Float()-1), v.lat()+d*(2*r.Float()-1))
+		case 2, 3: // beside an edge: a point of the edge moved perpendicularly by +-d
+			i := r.Intn(len(poly))
+			a, b := poly[i], poly[(i+1)%len(poly)]
+			t := r.Float()
+			if r.Chance(1, 3) {
+				t = 0.5 // the middle of the edge: farthest from the great circle through its ends
+			}
+			ex, ey := b.lon()-a.lon(), b.lat()-a.lat()
+			l := math.Hypot(ex, ey)
+			if l == 0 {
+				return a
+			}
+			d := vrand.Pick(r, []float64{0, 1e-6, 5e-6, 1e-4, 1e-2, 0.02 * h, 0.1 * h, 0.3 * h, 0.05 * w})
+			if r.Bool() {
+				d = -d
+			}
+			return mkPt(a.lon()+t*ex-d*ey/l, a.lat()+t*ey+d*ex/l)
+		case 4, 5, 6: // somewhere inside (rejection sampling in the bounding box)
+			for i := 0; i < 40; i++ {
+				x, y := inBox(0)
+				if roughInside(poly, x, y) {
+					return mkPt(x, y)
+				}
+			}
+			x, y := inBox(0)
+			return mkPt(x, y)
+		case 7: // outside but within the bounding box, if there is such a place
+			for i := 0; i < 40; i++ {
+				x, y := inBox(0)
+				if !roughInside(poly, x, y) {
+					return mkPt(x, y)
+				}
+			}
+			x, y := inBox(0.15)
+			return mkPt(x, y)
+		default: // around the bounding box
+			x, y := inBox(0.15)
+			return mkPt(x, y)
+		}
+	}
 }
 
 // ---------------------------------------------------------------- trusted geometry (input classification)
@@ -565,7 +745,9 @@ func segDist(px, py, ax, ay, bx, by float64) float64 {
 	return math.Hypot(px-(ax+t*dx), py-(ay+t*dy))
 }
 
-// planar (lon/lat) point-in-polygon by crossing number, with a margin band around the boundary
+// planar (lon/lat) point-in-polygon by crossing number, with a margin band around the boundary.
+// NOT an oracle any more: used only for the known-findings label of a scene (sceneClass); the
+// polygon verdicts are computed in Coq (Geo/Polygon.v, Corr.check_poly) from the exact inputs.
 func classPolygon(poly []Pt, p Pt) int {
 	px, py := p.lon(), p.lat()
 	inside := false
@@ -827,27 +1009,38 @@ func exec(in In) vh.Result {
 		return vh.Result{Term: cf.App("CBox", engineTerm(in.Engine), zc(in.Box[0]), zc(in.Box[1]), zc(in.Box[2]), zc(in.Box[3]),
 			cf.ListOf(in.Docs, func(d []Pt) cf.T { return cf.ListOf(d, ptTerm) }), cf.ListOf(hits, cf.Bool)),
 			Nontrivial: nt, Class: cls, Hist: hist}
-	case "dist", "poly":
-		var order []int
-		var res vh.Result
-		var ok bool
-		var classify func(Pt) int
-		kind := cf.T("KDistance")
-		if in.Kind == "dist" {
-			radius := bf(in.Radius)
-			q := bleve.NewGeoDistanceQuery(in.P.lon(), in.P.lat(), strconv.FormatFloat(radius, 'g', -1, 64)+"m")
-			order, res, ok = runQuery(in, q, nil)
-			classify = func(p Pt) int { return classCircle(*in.P, p, radius) }
-		} else {
-			kind = "KPolygon"
-			var pts []geo.Point
-			for _, p := range in.Poly {
-				pts = append(pts, geo.Point{Lon: p.lon(), Lat: p.lat()})
-			}
-			q := query.NewGeoBoundingPolygonQuery(pts)
-			order, res, ok = runQuery(in, q, nil)
-			classify = func(p Pt) int { return classPolygon(in.Poly, p) }
+	case "poly":
+		var pts []geo.Point
+		for _, p := range in.Poly {
+			pts = append(pts, geo.Point{Lon: p.lon(), Lat: p.lat()})
 		}
+		order, res, ok := runQuery(in, query.NewGeoBoundingPolygonQuery(pts), nil)
+		if !ok {
+			return res
+		}
+		hits := hitVector(order, len(in.Docs))
+		nt, hist := sceneStats(in.Docs, hits)
+		hist = append(hist, "poly:"+in.Engine, fmt.Sprintf("poly:vertices=%d", len(in.Poly)))
+		for _, n := range strings.Split(in.Note, "+") {
+			if n != "" {
+				hist = append(hist, "poly:"+n)
+			}
+		}
+		// label only (known_findings.json signature); the verdicts are computed in Coq
+		cls := sceneClass(in.Docs, hits, func(p Pt) int { return classPolygon(in.Poly, p) })
+		if cls != "" {
+			hist = append(hist, "first-only:poly:"+in.Engine)
+		}
+		return vh.Result{Term: cf.App("CPoly", engineTerm(in.Engine),
+			cf.ListOf(in.Poly, func(p Pt) cf.T { return cf.Pair(zc(p.Lon), zc(p.Lat)) }),
+			cf.ListOf(in.Docs, func(d []Pt) cf.T { return cf.ListOf(d, ptTerm) }), cf.ListOf(hits, cf.Bool)),
+			Nontrivial: nt, Class: cls, Hist: hist}
+	case "dist":
+		radius := bf(in.Radius)
+		q := bleve.NewGeoDistanceQuery(in.P.lon(), in.P.lat(), strconv.FormatFloat(radius, 'g', -1, 64)+"m")
+		order, res, ok := runQuery(in, q, nil)
+		classify := func(p Pt) int { return classCircle(*in.P, p, radius) }
+		kind := cf.T("KDistance")
 		if !ok {
 			return res
 		}
@@ -908,7 +1101,7 @@ func main() {
 		CheckFn:   "Corr.check",
 		ExplainFn: "Corr.explain",
 		Rule: "function level: numeric.Interleave/Deinterleave, geo.MortonHash/MortonUnhashLon/Lat on grid-boundary values (0, 2^32-1, powers of two +-1, multiples of 2^18 and those minus one = corners of the recursion's cells), decoded grid points +-1 ulp, coordinate bounds, random; searcher.ComputeGeoRange term lists for boxes from 1e-7 to ~1 degree whose edges keep 0.2 grid steps away from cell corners (re-checked in Coq); " +
-			"API level (scorch, scorch+s2 plugin, upsidedown; 4-9 documents with 0-3 points each, several batches): bounding boxes tiny to world-wide, date-line crossing, edges on the coordinate bounds or on decoded cell corners, probe points at edge +- {0,3e-8..1e-3} degrees, on level-14 cell boundaries, at +-180/+-90; distance queries 1 m .. 20000 km incl. pole-containing and date-line crossing circles, probe points at radius*(1 +- {0,1e-9..0.3}); simple convex/concave polygons of either orientation with probes near vertices and edges; distance sort asc/desc on single-valued documents; " +
+			"API level (every scene on a plain index - scorch or upsidedown - AND on scorch+s2 plugin; 4-9 documents with 0-3 points each, several batches): bounding boxes tiny to world-wide, date-line crossing, edges on the coordinate bounds or on decoded cell corners, probe points at edge +- {0,3e-8..1e-3} degrees, on level-14 cell boundaries, at +-180/+-90; distance queries 1 m .. 20000 km incl. pole-containing and date-line crossing circles, probe points at radius*(1 +- {0,1e-9..0.3}); simple polygons of 3-12 vertices, bounding box 1e-5 to 170 degrees wide, half of them centred at |lat| 40-80, star-shaped convex/concave, rectangles, bands with long east-west edges, skewed quadrilaterals, triangles, rectilinear L/U/comb shapes, either orientation, any starting vertex, some touching +-180/+-90, probes near vertices, beside edges at +-{0,1e-6..0.3*height}, inside and outside by rejection sampling (verdicts computed in Coq from the exact inputs); distance sort asc/desc on single-valued documents; " +
 			"non-trivial: non-zero function inputs, range cases with both term lists non-empty, scenes whose hits are neither none nor all or that contain a multi-valued document, sorts that reorder",
 		ShardSize: 60,
 		// every number of a case is printed in constructor form; with Z_scope open Coq 8.16 takes ~50 ms
